@@ -135,7 +135,14 @@ func (tr *Tracer) step(st *state) (*state, []*state) {
 	case *ssa.IndexAddr:
 		f.regs[in] = &Sym{Kind: KIndexAddr, Args: []*Sym{tr.val(st, in.X), tr.val(st, in.Index)}, Typ: in.Type()}
 	case *ssa.Index:
-		f.regs[in] = &Sym{Kind: KIndex, Args: []*Sym{tr.val(st, in.X), tr.val(st, in.Index)}, Typ: in.Type()}
+		x, idx := tr.val(st, in.X), tr.val(st, in.Index)
+		if _, isArr := in.X.Type().Underlying().(*types.Array); isArr && x.Kind == KStruct {
+			if i, ok := idx.intConst(); ok && i >= 0 && int(i) < len(x.Args) {
+				f.regs[in] = x.Args[i]
+				break
+			}
+		}
+		f.regs[in] = &Sym{Kind: KIndex, Args: []*Sym{x, idx}, Typ: in.Type()}
 	case *ssa.Lookup:
 		m, k := tr.val(st, in.X), tr.val(st, in.Index)
 		if _, isMap := in.X.Type().Underlying().(*types.Map); !isMap {
@@ -329,8 +336,15 @@ func (tr *Tracer) gotoBlock(st *state, b *ssa.BasicBlock) (*state, []*state) {
 	from := f.block
 	back := b.Dominates(from)
 	if back {
-		switch f.loopGen[b] {
-		case 0:
+		if g := f.loopGen[b]; g <= 0 && g > -4 && smallConstLoop(b) && tr.phisConstOver(st, f, b, from) {
+			// a loop over a literal table of at most four elements (range over an array literal, i < 2):
+			// the iterations are walked one by one with their concrete index instead of being generalised
+			f.loopGen[b] = g - 1
+			f.prev, f.block, f.pc = from, b, 0
+			return st, nil
+		}
+		switch g := f.loopGen[b]; {
+		case g <= 0:
 			f.loopGen[b] = 1
 			f.genDepth++
 			st.gen++
@@ -441,6 +455,52 @@ func (tr *Tracer) freshPhis(st *state, f *frame, h, from *ssa.BasicBlock) {
 
 func blockID(b *ssa.BasicBlock) string {
 	return b.Parent().String() + "#" + b.String() + "|"
+}
+
+// smallConstLoop: the header ends in `if x < c` with a constant 0 <= c <= 4.
+func smallConstLoop(b *ssa.BasicBlock) bool {
+	if len(b.Instrs) == 0 {
+		return false
+	}
+	br, ok := b.Instrs[len(b.Instrs)-1].(*ssa.If)
+	if !ok {
+		return false
+	}
+	cmp, ok := br.Cond.(*ssa.BinOp)
+	if !ok || cmp.Op != token.LSS {
+		return false
+	}
+	k, ok := cmp.Y.(*ssa.Const)
+	if !ok || k.Value == nil || k.Value.Kind() != constant.Int {
+		return false
+	}
+	n, exact := constant.Int64Val(k.Value)
+	return exact && n >= 0 && n <= 4
+}
+
+// phisConstOver: every phi of header h takes a constant over the edge from -> h.
+func (tr *Tracer) phisConstOver(st *state, f *frame, h, from *ssa.BasicBlock) bool {
+	backIdx := -1
+	for i, p := range h.Preds {
+		if p == from {
+			backIdx = i
+		}
+	}
+	if backIdx < 0 {
+		return false
+	}
+	n := 0
+	for _, in := range h.Instrs {
+		ph, ok := in.(*ssa.Phi)
+		if !ok {
+			break
+		}
+		n++
+		if v := tr.val(st, ph.Edges[backIdx]); v == nil || !v.isConst() || v.Const == nil {
+			return false
+		}
+	}
+	return n > 0
 }
 
 func isLoopHeader(b *ssa.BasicBlock) bool {
